@@ -337,6 +337,17 @@ def run_case(case, ctx):
     other = "VW" if case["mode"] == "DP" else "DP"
     tol2 = case["tol"] * (4.0 if case.get("style") != "identical" else 1.0)
     pts_in = [[tr.getObs(i).position.getX(), tr.getObs(i).position.getY()] for i in range(tr.size())]
+    if case["mode"] == "VW" and out is not None and out.size() >= 1 and len(case["pts"]) % 2 == 0:
+        # aliasing: the simplified track belongs to the caller, who gives it a feature of its own (Visvalingam's output
+        # holds its own observation objects); the input is then simplified again by the same algorithm
+        M.call(out.createAnalyticalFeature, "__of_the_caller", 7.0)
+        ctx.count("output_given_a_feature_by_the_caller")
+        r1, _, _ = _judge({"pts": pts_in, "tol": tol2, "mode": "VW", "style": case.get("style"), "_nested": 1}, ctx, tr)
+        if r1["v"] == "violated":
+            r1["witness"]["history"] = ("Visvalingam again on the same input track after the caller gave the first OUTPUT a "
+                                        "feature of its own")
+            r1["sig"], r1["nt"] = res["sig"], res["nt"]
+            return r1
     r2, _, _ = _judge({"pts": pts_in, "tol": tol2, "mode": other, "style": case.get("style"), "_nested": 1}, ctx, tr)
     if r2["v"] == "violated":
         r2["witness"]["history"] = "second simplify() on the same input track (first: %s, tol %r)" % (case["mode"], case["tol"])
